@@ -80,4 +80,51 @@ theorem c07j_cookwareTail_inter (start stop modPos nameOffset : Nat) (amp op cp 
   refine Sat.bind (Sat.pure ?_)
   exact Sat.pure ⟨((q5.pushed.trans p6).trans (Pushed.one _ _)).cast (by simp), rfl⟩
 
+/-- **A cookware item `#&( inner )name{}` whose group is ACCEPTED with data `dd`, wherever it stands**: exactly
+    `inter-ref-not-allowed:cookware` (error, parse; the data's span), then the item with the `&` flag on the byte range
+    of the construct. -/
+theorem c07j_cookware_inter_piece (T A rest : List Tok) (cs : CharSpec) (e : Ext) (tm tand top : Tok)
+    (inner : List Tok) (tcp : Tok) (nameT : List Tok) (tob : Tok) (Q : List Tok) (tcb : Tok)
+    (hT : T = A ++ (c07p_comp tm (c07i_mods [] tand top inner tcp []) nameT tob Q tcb ++ rest)) (hw : WF T)
+    (sh : PlShapeI e .hash tm [] tand top inner tcp [] nameT tob Q tcb rest)
+    (hQ : ∀ t ∈ Q, isPadK t = true)
+    (ha : e.has Gen.EXT_COMPONENT_ALIAS = false ∨ ∀ t ∈ nameT, t.kind ≠ .or)
+    (hname : (buildText (offAt T (A.length + 1 + (c07i_mods [] tand top inner tcp []).length)) nameT).isTextEmpty cs
+      = false)
+    (dd : Loc InterData)
+    (hPI : ∀ s0 : BP α, parseInterRef (α := α) (top :: (inner ++ tcp :: [])) s0 = ((some dd, []), s0)) :
+    PlPieceAt (α := α) T cs e A ⟨c07p_comp tm (c07i_mods [] tand top inner tcp []) nameT tob Q tcb, fun evs =>
+      evs = [.error ⟨.error, .parse, "inter-ref-not-allowed:cookware", [dd.span]⟩,
+        .cookware ⟨⟨⟨Modifiers.empty.insert Modifiers.REF, tokensSpan (tand :: top :: (inner ++ [tcp]))⟩,
+          buildText (offAt T (A.length + 1 + (c07i_mods [] tand top inner tcp []).length)) nameT, none, none, none⟩,
+        ⟨offAt T A.length,
+         offAt T (A.length + (c07p_comp tm (c07i_mods [] tand top inner tcp []) nameT tob Q tcb).length)⟩⟩]⟩ := by
+  apply c07p_piece_of_cookware T A _ rest cs e hT hw tm _ rfl sh.hk
+  intro s h1 h2 h3 h4 h5
+  subst h1 h2 h3
+  obtain ⟨hcut, hnote⟩ := c07i_cut .hash s A tm [] tand top inner tcp [] nameT tob Q tcb rest sh hT h5
+  have hrun' : cookwareP s = cookwareTail (offAt s.toks A.length)
+      (offAt s.toks (A.length + (c07p_comp tm (c07i_mods [] tand top inner tcp []) nameT tob Q tcb).length))
+      (offAt s.toks (A.length + 1)) (offAt s.toks (A.length + 1 + (c07i_mods [] tand top inner tcp []).length))
+      (tand :: top :: (inner ++ [tcp])) (c07p_body nameT tob Q tcb) none
+      { s with cur := A.length + (c07p_comp tm (c07i_mods [] tand top inner tcp []) nameT tob Q tcb).length } := by
+    have := cookwareP_cut hcut hnote
+    rw [this]
+    simp only [curOff, h5]
+    rfl
+  have hbody := c07p_body_qty_none nameT tob Q tcb hQ
+  have ht := c07j_cookwareTail_inter (α := α) (offAt s.toks A.length)
+    (offAt s.toks (A.length + (c07p_comp tm (c07i_mods [] tand top inner tcp []) nameT tob Q tcb).length))
+    (offAt s.toks (A.length + 1)) (offAt s.toks (A.length + 1 + (c07i_mods [] tand top inner tcp []).length))
+    tand top tcp inner (c07p_body nameT tob Q tcb) none dd
+    ({ s with cur := A.length + (c07p_comp tm (c07i_mods [] tand top inner tcp []) nameT tob Q tcb).length } : BP α)
+    sh.hand sh.hint hPI hbody ha hname
+  unfold Sat at ht
+  rw [← hrun'] at ht
+  obtain ⟨hpu, hr⟩ := ht
+  refine ⟨[_], _, hr, hpu, ?_, ?_⟩
+  · rw [hrun']
+    exact (c07p_indep_fields (Indep.cookwareTail ..) _).1
+  · simp [c07p_body]
+
 end Cook
